@@ -53,6 +53,29 @@ Proof. exact (fun ep em es_ ee ef c g es H => conj (slpp_write_entries_from_sour
 Theorem C07_read_names_from_source : forall p, kind_of p = kind_of_tbl slpp_read_targets p.
 Proof. exact slpp_read_names_from_source. Qed.
 
+From Peppi Require Import Gen.SlppReadSrc Proofs.SlppReadLayout.
+(* ---- the frames.arrow arm and the assembly after the loop, regenerated (Gen/SlppReadSrc.v): a frames entry shorter than its
+   declared size is an error before any decoding; peppi.json, start.raw and frames.arrow are required; exactly one record batch ---- *)
+Theorem C07_frames_arm_from_source : forall dec_peppi dec_meta dec_frames o skip p c r a,
+  kind_of p = KFrames -> skip = skip_of_opts o ->
+  kind_of (sb slpp_frames_entry) = KFrames /\
+  read_entries dec_peppi dec_meta dec_frames skip ((p, c) :: r) a = frames_arm_tbl dec_frames o (List.length c) c a.
+Proof. exact frames_arm_from_source. Qed.
+Theorem C07_short_frames_entry_is_error : forall dec_frames o declared c a s,
+  ra_start a = Some s -> skip_tbl o = false -> (List.length c < declared)%nat ->
+  frames_arm_tbl dec_frames o declared c a = Err EInvalid.
+Proof. exact frames_arm_short_from_source. Qed.
+Theorem C07_slpp_reader_assembly_from_source : forall dec_peppi dec_meta dec_frames skip es,
+  slpp_read dec_peppi dec_meta dec_frames skip es =
+  (a <- read_entries dec_peppi dec_meta dec_frames skip es racc0 ;; assemble_tbl a).
+Proof. exact slpp_read_from_source. Qed.
+Theorem C07_required_entries_from_source :
+  (forall n, In n slpp_read_required <-> n = "peppi"%string \/ n = "start"%string \/ n = "frames"%string) /\
+  map (fun x : string * asm_src => fst x)
+      (filter (fun x : string * asm_src => match snd x with AsOptional _ => true | _ => false end) slpp_read_assembly)
+  = ["metadata"; "end"; "gecko_codes"]%string.
+Proof. exact slpp_read_required_from_source. Qed.
+
 Print Assumptions C07_read_extends.
 Print Assumptions C07_truncated_full.
 Print Assumptions C07_truncated_skip.
@@ -60,3 +83,7 @@ Print Assumptions C07_slpp_cut_rejected.
 Print Assumptions C07_nonvacuous.
 Print Assumptions C07_written_entries_from_source.
 Print Assumptions C07_read_names_from_source.
+Print Assumptions C07_frames_arm_from_source.
+Print Assumptions C07_short_frames_entry_is_error.
+Print Assumptions C07_slpp_reader_assembly_from_source.
+Print Assumptions C07_required_entries_from_source.
